@@ -82,3 +82,14 @@ package opentype
 //@   loop 2 invariant [offset] int(tableOffset) == 12 + 16*len(tables) + sumLen(tables, rangeindex+1) && sumLen(tables, rangeindex+1) >= 0
 //@   loop 2 invariant [directory] forall(k, 0, len(tables), dirEntryOK(buffer, tables, k))
 //@   loop 2 invariant [prefix-monotone] forall(k, 0, len(tables)+1, sumLen(tables, k) <= sumLen(tables, len(tables)))
+//
+// Read-back (C19, "loading it returns exactly the same tags and byte contents"): the buffer handed back for a table
+// has exactly the length recorded in the directory (the decompressed length for a WOFF table), also when a larger
+// scratch buffer is supplied, and an empty table is read without touching the file.
+//@ func Loader.findTableBuffer C19
+//@   mode int
+//@   requires [loader] pr != nil
+//@   ensures [length] implies(result1 == nil && !(s.length != 0 && s.length < s.zLength), len(result0) == int(s.length))
+//@   ensures [decompressed-length] implies(result1 == nil && s.length != 0 && s.length < s.zLength, len(result0) == int(s.zLength))
+//@   ensures [empty-table] implies(s.length == 0, result1 == nil && len(result0) == 0)
+//@   modifies unspecified
